@@ -258,7 +258,7 @@ func fieldLoadInvariantIn(v ssa.Value, loop map[*ssa.BasicBlock]bool) bool {
 			}
 			if c, ok := in.(ssa.CallInstruction); ok {
 				n := calleeName(c)
-				if strings.HasPrefix(n, "builtin:") || strings.HasPrefix(n, "strings.") || strings.HasPrefix(n, "fmt.Sprint") || strings.HasPrefix(n, "strconv.") {
+				if strings.HasPrefix(n, "builtin:") || strings.HasPrefix(n, "strings.") || strings.HasPrefix(n, "(*strings.Builder).") || strings.HasPrefix(n, "fmt.Sprint") || strings.HasPrefix(n, "strconv.") {
 					continue
 				}
 				return false
